@@ -1,11 +1,49 @@
 /-
-  Protocol ops of one area (see /verif/FRAMEWORK.md).  Not part of any theorem.  Core Lean only.
+  Protocol ops of the nucleotide area (C18): alphabet operations, Match, Search, and the
+  meaning side (`spec.*`) so that the Go oracle's re-statement of Gts/Spec/Iupac is compared
+  with the Lean one on every run.  Not part of any theorem.  Core Lean only.
+
+    nuc.complement x<seq>            → x<bytes> | PANIC
+    nuc.transcribe x<seq>            → x<bytes> | PANIC
+    nuc.replace x<p> x<old> x<new>   → x<bytes> | PANIC          (replaceBytes)
+    nuc.match x<seq> x<query>        → ((S a b) …) | PANIC        (ASCII only)
+    nuc.search x<seq> x<query>       → ((S a b) …)                (ASCII only)
+    nuc.indexall x<s> x<sep>         → (i …) ascending            (bytesIndexAll, sorted by the harness)
+    spec.baseset x<byte>             → mask
+    spec.complset <mask>             → mask
+    spec.letterof <mask> <upper> <rna> → x<byte>
 -/
 import Gts.Model.Sexp
+import Gts.Model.Nuc
+import Gts.Spec.Iupac
 namespace Gts
+
+def encOptBytes : Option (List UInt8) → String
+  | some b => encBytes b
+  | none => "PANIC"
 
 def evalNuc (op : String) (args : List Sexp) : Option String :=
   match op, args with
+  | "nuc.complement", [p] => do pure (encOptBytes (Nuc.complementBytes (← decBytes? p)))
+  | "nuc.transcribe", [p] => do pure (encOptBytes (Nuc.transcribeBytes (← decBytes? p)))
+  | "nuc.replace", [p, o, n] => do
+      pure (encOptBytes (Nuc.replaceBytes (← decBytes? p) (← decBytes? o) (← decBytes? n)))
+  | "nuc.match", [s, q] => do
+      let s ← decBytes? s
+      let q ← decBytes? q
+      if s.length = 0 ∨ q.length = 0 then pure (encSegs [])
+      else if !Nuc.matchModelled q then pure "UNMODELLED"
+      else pure (encSegs (Nuc.matchSegs s q))
+  | "nuc.search", [s, q] => do pure (encSegs (Nuc.search (← decBytes? s) (← decBytes? q)))
+  | "nuc.indexall", [s, q] => do
+      pure (encList ((Nuc.indexAll (← decBytes? s) (← decBytes? q)).map toString))
+  | "spec.baseset", [c] => do
+      match ← decBytes? c with
+      | [b] => pure (toString (Iupac.baseSet b))
+      | _ => none
+  | "spec.complset", [m] => do pure (toString (Iupac.complementSet (← decInt? m).toNat))
+  | "spec.letterof", [m, u, r] => do
+      pure (encBytes [Iupac.letterOf (← decInt? m).toNat (← decBool? u) (← decBool? r)])
   | _, _ => none
 
 end Gts
